@@ -10,6 +10,7 @@ import (
 	"os/exec"
 	"regexp"
 	"runtime"
+	"runtime/debug"
 	"strings"
 	"sync"
 	"syscall"
@@ -87,6 +88,8 @@ const workerInnerWatchdog = time.Hour
 // machine (16 shards share it).
 const workerMemLimit = 2 << 30
 
+const workerMaxStack = 256 << 20
+
 func inproc() bool { return os.Getenv("VERIF_C03_INPROC") != "" }
 
 // innerOracles dispatches a (sub, raw case) pair to the in-process oracle.
@@ -104,6 +107,12 @@ func runInner(sub string, raw json.RawMessage, r recorder, wd, wdAlone time.Dura
 			return vcommon.Failf("bad-case", "%v", err)
 		}
 		return checkApplyInner(a, r, wd, wdAlone)
+	case "mutate-then-read":
+		var q Seq
+		if err := json.Unmarshal(raw, &q); err != nil {
+			return vcommon.Failf("bad-case", "%v", err)
+		}
+		return checkSeqInner(q, r, wd, wdAlone)
 	case "readers-unlimited":
 		var s Src
 		if err := json.Unmarshal(raw, &s); err != nil {
@@ -120,6 +129,11 @@ func TestWorker(t *testing.T) {
 	if os.Getenv("VERIF_C03_WORKER") == "" {
 		t.Skip("not a worker process")
 	}
+	// A death must cost little on a shared machine: cap the goroutine stack at
+	// 256 MB instead of the 1 GB default.  Everything the limits (parser depth
+	// 10 000, nesting 5 000, 50 000 steps) legitimately allow stays two orders
+	// of magnitude below that.
+	debug.SetMaxStack(workerMaxStack)
 	out := os.NewFile(3, "resp")
 	if out == nil {
 		t.Fatal("worker: fd 3 missing")
